@@ -61,7 +61,20 @@ fn make_include_inner(cx: &mut Cx, list: &mut Vec<Item>, first: usize, dir: &str
     st.counter += 1;
     st.made += 1;
     st.max_depth_reached = st.max_depth_reached.max(depth);
-    let fname = format!("{}{}.{}", cx.tape.pick_str(&["inc", "Part_", "x.y", "module_data"]), st.counter, cx.tape.pick_str(&["a2l", "inc", "A2L"]));
+    let absolute = cx.tape.chance(1, 10);
+    let backslash = cx.tape.chance(1, 3);
+    // unquoted names: path characters only, not starting with a digit or a slash
+    let quoted = absolute || cx.tape.chance(1, 2);
+    // file and directory names: some start with n, r, t (which follow a back-slash separator), quoted names may contain
+    // any character a file system allows
+    let plain = cx.tape.chance(1, 2);
+    let stem = if quoted && !plain {
+        cx.probe("include-name-with-special-characters");
+        cx.tape.pick_str(&["my-data", "new file ", "tab+", "gr\u{f6}\u{df}e_", "rom(1)_", "it's_", "a&b=", "~tmp"])
+    } else {
+        cx.tape.pick_str(&["inc", "Part_", "x.y", "module_data", "tables", "new_", "rom", "nested.v1.", "r", "t"])
+    };
+    let fname = format!("{stem}{}.{}", st.counter, cx.tape.pick_str(&["a2l", "inc", "A2L"]));
     // location: same directory, a sub-directory, or the parent directory
     // directives that move along keep their includer-relative names valid only if the new file lives in the same directory
     let has_inc = moved.iter().any(|i| matches!(i, Item::Inc(_)));
@@ -69,7 +82,11 @@ fn make_include_inner(cx: &mut Cx, list: &mut Vec<Item>, first: usize, dir: &str
     let (file_dir, rel) = match loc {
         0 | 1 => (dir.to_string(), fname.clone()),
         2 | 3 => {
-            let sub = format!("sub{}", st.counter);
+            let sub = if quoted && !plain {
+                format!("{}{}", cx.tape.pick_str(&["new-dir", "t mp", "r\u{e9}sum\u{e9}", "n.d"]), st.counter)
+            } else {
+                format!("{}{}", cx.tape.pick_str(&["sub", "new", "tables", "rel", "n", "t"]), st.counter)
+            };
             (format!("{dir}/{sub}"), format!("{sub}/{fname}"))
         }
         _ => {
@@ -81,14 +98,10 @@ fn make_include_inner(cx: &mut Cx, list: &mut Vec<Item>, first: usize, dir: &str
         }
     };
     let path = format!("{file_dir}/{fname}");
-    let absolute = cx.tape.chance(1, 10);
-    let backslash = cx.tape.chance(1, 3);
     let mut name = if absolute { path.clone() } else { rel.clone() };
     if backslash && !absolute {
         name = name.replace('/', "\\");
     }
-    // unquoted names: path characters only, not starting with a digit or a slash
-    let quoted = absolute || cx.tape.chance(1, 2);
     st.syntax.push_str(&format!("{}{}{},", if quoted { "q" } else { "u" }, if backslash && !absolute { "\\" } else { "/" }, if absolute { "abs" } else { "" }));
     if !absolute && cx.tape.chance(1, 4) {
         // a decoy with different content at the CWD-relative location: the includer-relative file must win
@@ -165,12 +178,19 @@ pub fn split_a2ml(cx: &mut Cx, items: &mut [Item], dir: &str, st: &mut SplitStat
                         return false;
                     }
                     st.counter += 1;
-                    let fname = format!("a2ml_part{}.aml", st.counter);
+                    let quoted = cx.tape.chance(2, 3);
+                    let special = quoted && cx.tape.chance(1, 3);
+                    let fname = if special {
+                        cx.probe("a2ml-include-name-with-special-characters");
+                        format!("{}{}.aml", cx.tape.pick_str(&["xcp-defs", "a2ml part ", "v1.0+", "n\u{e4}chste_"]), st.counter)
+                    } else {
+                        format!("{}{}.aml", cx.tape.pick_str(&["a2ml_part", "tables", "new_", "r"]), st.counter)
+                    };
                     let sub = cx.tape.chance(1, 2);
-                    let (path, rel) = if sub { (format!("{dir}/aml/{fname}"), format!("aml/{fname}")) } else { (format!("{dir}/{fname}"), fname.clone()) };
+                    let subdir = if special { cx.tape.pick_str(&["aml", "new-aml", "t aml"]) } else { cx.tape.pick_str(&["aml", "new", "tables", "r"]) };
+                    let (path, rel) = if sub { (format!("{dir}/{subdir}/{fname}"), format!("{subdir}/{fname}")) } else { (format!("{dir}/{fname}"), fname.clone()) };
                     let backslash = sub && cx.tape.chance(1, 3);
                     let name = if backslash { rel.replace('/', "\\") } else { rel };
-                    let quoted = cx.tape.chance(2, 3);
                     let ri = RawInc {
                         before: text[..a].to_string(),
                         name,
